@@ -127,12 +127,18 @@ func (w *World) verifyFn(key string, opt Options) (res *FnResult) {
 		}
 		x.modSet = append(x.modSet, x.evalMod(st, m, x.entryPar, con)...)
 	}
+	x.buildProbes(st)
 	env := x.envFor(st, nil, con.Pkg, x.entryPar)
 	for _, cl := range con.Requires {
 		x.assume(st, x.clauseTerm(st, cl, env))
 	}
 	st.script = append(st.script, entry{kind: 'v', name: "cover:requires"})
 	x.findLoops()
+	for _, li := range x.loops {
+		if li.spec != nil && li.spec.Unroll > 0 {
+			x.prune = true
+		}
+	}
 	for _, li := range x.loops {
 		if li.spec == nil {
 			panic(unsupported(fmt.Sprintf("loop %d has no loop contract (invariant or unroll)", li.ord)))
@@ -165,6 +171,7 @@ func (w *World) verifyFn(key string, opt Options) (res *FnResult) {
 
 func (x *Exec) preludeText() (string, error) {
 	cx := x.cx
+	lemmas := cx.lemmaAxioms(x.exceptLemma)
 	specs, err := cx.specDefs()
 	var b strings.Builder
 	b.WriteString(cx.prelude())
@@ -186,6 +193,12 @@ func (x *Exec) preludeText() (string, error) {
 		b.WriteString(l + "\n")
 	}
 	b.WriteString(specs)
+	for _, l := range lemmas {
+		b.WriteString(l + "\n")
+	}
+	for _, f := range cx.foldBaseFacts() {
+		b.WriteString(f + "\n")
+	}
 	// literals / sorts discovered while translating spec functions
 	return b.String(), err
 }
@@ -208,7 +221,17 @@ func (x *Exec) compose(prelude string, path []entry, only int, timeoutMS int, re
 			b.WriteString(e.text + "\n")
 		case 'a':
 			b.WriteString("(assert " + e.text + ")\n")
+		case 'W':
+			for _, f := range x.cx.unfoldFacts(e.aux[0], e.aux[1], e.name, e.text) {
+				b.WriteString(f + "\n")
+			}
 		case 'S':
+			for _, k := range x.cx.foldOrd {
+				fi := x.cx.foldUsed[k]
+				for _, init := range x.cx.foldInits[fi.nameO] {
+					fmt.Fprintf(&b, "(assert (= (%s %s %s (s_len %s)) (%s %s %s)))\n", fi.nameS, init, e.aux[0], e.aux[0], fi.nameO, init, e.aux[1])
+				}
+			}
 			for _, k := range x.cx.foldOrd {
 				fi := x.cx.foldUsed[k]
 				fmt.Fprintf(&b, "(assert (forall ((s0 %s)) (! (= (%s s0 %s (s_len %s)) (%s s0 %s)) :pattern ((%s s0 %s (s_len %s))))))\n", fi.sort, fi.nameS, e.aux[0], e.aux[0], fi.nameO, e.aux[1], fi.nameS, e.aux[0], e.aux[0])
@@ -223,7 +246,7 @@ func (x *Exec) compose(prelude string, path []entry, only int, timeoutMS int, re
 			if refs != nil {
 				*refs = append(*refs, checkRef{path: pathNo, idx: i, name: e.name, kind: 'v'})
 			}
-			fmt.Fprintf(&b, "(echo \"CHK %d\")\n(check-sat)\n", i)
+			fmt.Fprintf(&b, "(set-option :timeout 1500)\n(echo \"CHK %d\")\n(check-sat)\n(set-option :timeout %d)\n", i, timeoutMS)
 		case 'c':
 			if e.inherited || (only >= 0 && only != i) {
 				if only < 0 || i < only {
@@ -235,8 +258,12 @@ func (x *Exec) compose(prelude string, path []entry, only int, timeoutMS int, re
 				*refs = append(*refs, checkRef{path: pathNo, idx: i, name: e.name, site: e.site, kind: 'c'})
 			}
 			fmt.Fprintf(&b, "(push 1)\n(assert (not %s))\n(echo \"CHK %d\")\n(check-sat)\n", e.text, i)
-			if only >= 0 {
-				b.WriteString("(get-model)\n")
+			if only >= 0 && len(x.probes) > 0 {
+				var ts []string
+				for _, p := range x.probes {
+					ts = append(ts, p.term)
+				}
+				b.WriteString("(get-value (" + strings.Join(ts, " ") + "))\n")
 			}
 			b.WriteString("(pop 1)\n(assert " + e.text + ")\n")
 		}
@@ -308,6 +335,12 @@ func runSolver(solver string, script string, overallMS int) (map[int]chkOut, str
 	}
 	flush()
 	_ = err
+	for _, ln := range lines {
+		t := strings.TrimSpace(ln)
+		if strings.HasPrefix(t, "(error") && !strings.Contains(t, "model is not available") && !strings.Contains(t, "Cannot get model") && !strings.Contains(t, "cannot get model") {
+			return res, out.String(), fmt.Errorf("solver error: %s", t)
+		}
+	}
 	return res, out.String(), nil
 }
 
@@ -356,7 +389,19 @@ func (x *Exec) solve(res *FnResult, opt Options) {
 			defer wg.Done()
 			defer func() { <-sem }()
 			t0 := time.Now()
-			out, raw, _ := runSolver("z3", j.script, opt.TimeoutMS*len(j.refs)+20000)
+			primary := "z3"
+			if x.cx.bv {
+				primary = "z3-new"
+			}
+			out, raw, serr := runSolver(primary, j.script, opt.TimeoutMS*len(j.refs)+20000)
+			if serr != nil {
+				mu.Lock()
+				if res.Err == "" {
+					res.Err = serr.Error()
+					res.EngineErr = true
+				}
+				mu.Unlock()
+			}
 			ms := time.Since(t0).Milliseconds()
 			var local []inst
 			for _, r := range j.refs {
@@ -372,7 +417,7 @@ func (x *Exec) solve(res *FnResult, opt Options) {
 						stt = "unknown"
 					}
 				}
-				local = append(local, inst{ref: r, status: stt, solver: "z3", ms: ms / int64(len(j.refs)), rest: o.rest})
+				local = append(local, inst{ref: r, status: stt, solver: primary, ms: ms / int64(len(j.refs)), rest: o.rest})
 			}
 			// escalate undecided checks one by one to the other solvers
 			for i := range local {
@@ -385,7 +430,7 @@ func (x *Exec) solve(res *FnResult, opt Options) {
 					if in.status == "sat" {
 						// re-run standalone to obtain a model
 						s := x.compose(prelude, x.paths[in.ref.path], in.ref.idx, opt.TimeoutMS, nil, in.ref.path)
-						_, raw, _ := runSolver("z3", s, opt.TimeoutMS+10000)
+						_, raw, _ := runSolver(in.solver, s, opt.TimeoutMS+10000)
 						in.rest = raw
 					}
 					continue
@@ -469,4 +514,105 @@ func firstLines(s string, n int) string {
 		ls = ls[:n]
 	}
 	return strings.Join(ls, " | ")
+}
+
+// feasible asks the solver whether the current path condition together with cond is satisfiable (used to prune
+// infeasible branches in unrolled loops). Unknown counts as feasible.
+func (x *Exec) feasible(st *State, cond string) bool {
+	prelude, err := x.preludeText()
+	if err != nil {
+		return true
+	}
+	var b strings.Builder
+	b.WriteString("(set-option :timeout 2000)\n")
+	b.WriteString(prelude)
+	for _, e := range st.script {
+		switch e.kind {
+		case 'd':
+			b.WriteString(e.text + "\n")
+		case 'a', 'c':
+			if e.text != "" {
+				b.WriteString("(assert " + e.text + ")\n")
+			}
+		}
+	}
+	b.WriteString("(assert " + cond + ")\n(echo \"CHK 0\")\n(check-sat)\n")
+	out, _, _ := runSolver("z3", b.String(), 5000)
+	if o, ok := out[0]; ok && o.status == "unsat" {
+		x.pruned++
+		return false
+	}
+	return true
+}
+
+type probe struct {
+	label string
+	term  string
+	t     types.Type
+}
+
+// buildProbes lists the terms whose model values describe the pre-state of the unit (for counterexamples / replay).
+func (x *Exec) buildProbes(st *State) {
+	cx := x.cx
+	addStr := func(label, term string) {
+		x.probes = append(x.probes, probe{label + ".len", fmt.Sprintf("(s_len %s)", term), types.Typ[types.Int]})
+		for i := 0; i < 24; i++ {
+			x.probes = append(x.probes, probe{fmt.Sprintf("%s[%d]", label, i), fmt.Sprintf("(s_at %s %s)", term, cx.num(int64(i))), types.Typ[types.Uint8]})
+		}
+	}
+	var addVal func(label, term string, t types.Type, depth int)
+	addVal = func(label, term string, t types.Type, depth int) {
+		if isBuilder(t) {
+			return
+		}
+		switch u := t.Underlying().(type) {
+		case *types.Basic:
+			if isString(t) {
+				addStr(label, term)
+				return
+			}
+			x.probes = append(x.probes, probe{label, term, t})
+		case *types.Pointer, *types.Map:
+			x.probes = append(x.probes, probe{label, term, t})
+		case *types.Struct:
+			if depth > 1 {
+				return
+			}
+			sn := cx.sortOf(t)
+			for i := 0; i < u.NumFields(); i++ {
+				addVal(label+"."+u.Field(i).Name(), fmt.Sprintf("(%s_%s %s)", sn, u.Field(i).Name(), term), u.Field(i).Type(), depth+1)
+			}
+		case *types.Slice:
+			sn := cx.sortOf(t)
+			x.probes = append(x.probes, probe{label + ".len", fmt.Sprintf("(len_%s %s)", sn, term), types.Typ[types.Int]})
+			if depth > 0 {
+				return
+			}
+			for i := 0; i < 4; i++ {
+				addVal(fmt.Sprintf("%s[%d]", label, i), fmt.Sprintf("(select (arr_%s %s) %s)", sn, term, cx.num(int64(i))), u.Elem(), depth+1)
+			}
+		}
+	}
+	for _, p := range x.fn.Params {
+		v := x.entryPar[p.Name()]
+		if pt, ok := p.Type().Underlying().(*types.Pointer); ok {
+			if stt, ok := pt.Elem().Underlying().(*types.Struct); ok && !isBuilder(pt.Elem()) {
+				x.probes = append(x.probes, probe{p.Name(), v.S, p.Type()})
+				for i := 0; i < stt.NumFields(); i++ {
+					ft := stt.Field(i).Type()
+					if _, isFn := ft.Underlying().(*types.Signature); isFn {
+						continue
+					}
+					if _, isIf := ft.Underlying().(*types.Interface); isIf {
+						continue
+					}
+					key, _ := cx.fieldKey(pt.Elem(), i)
+					x.heapName(st, key)
+					addVal(p.Name()+"."+stt.Field(i).Name(), fmt.Sprintf("(select %s@0 %s)", key, v.S), ft, 0)
+				}
+				continue
+			}
+		}
+		addVal(p.Name(), v.S, p.Type(), 0)
+	}
 }
